@@ -343,6 +343,10 @@ package bkl
 //@     invariant ((_ is VList) ret)
 //@     invariant (= (app (ls ret) (emitF rest)) (emitF (ls l)))
 //@     invariant (= (emitErr rest) (emitErr (ls l)))
+//@   at call Document.Process#1
+//@     assert (and (= d@arg doc) (= mergeFromDocs@arg (Parser.docs p)))            [C10] [C11] [C07] [C06]
+//@   at call findOutputs#1
+//@     assert (= obj@arg (Document.Data d))                                        [C11]
 //@   at call finalizeOutput#1
 //@     assert (noMarker v2)                                                        [C07]
 //@     assert (= v2 (hideF v))                                                     [C11]
@@ -443,6 +447,13 @@ package bkl
 //@   property C01, C02, C03, C04, C07, C10, C12, C13, C14, C17 shallow   -- every property that says "... is an error" is observed through this function: a failure below it must surface (propagates)
 //@   propagates all   [C08] [C20] [C07] [C03]
 //@   uses rappLen
+//@   at call process1#1
+//@     assert (and (= obj@arg (Document.Data d)) (= (Document.Data d) (old (Document.Data d@pre))) (= mergeFrom@arg d) (= mergeFromDocs@arg mergeFromDocs) (= depth@arg 0)   [C10] [C06] [C12]
+//@                 (not (= d d@pre)) (>= d (old allocTop)))
+//@   at call repeatDoc#1
+//@     assert (and (= doc@arg d) (= ec@arg ec))                                                              [C12]
+//@   at call process2#1
+//@     assert (and (= obj@arg (Document.Data doc)) (= mergeFrom@arg doc) (= mergeFromDocs@arg mergeFromDocs) (= ec@arg (rlnth ecs i)) (= depth@arg 0))   [C12] [C13] [C14] [C06]
 
 // ------------------------------------------------------------------------------------------------- process1.go (termination: depth guard)
 // measure: (1002 - depth, rank of the function inside one depth level); process1 increments depth and refuses depth > 1000
